@@ -140,8 +140,10 @@ def _execute_script_helper(statements, options, locals_):
                 # Execute the include script
                 include_options = options.copy()
                 include_options['urlFn'] = functools.partial(url_file_relative, url)
-                _execute_script_helper(script['statements'], include_options, None)
-                options['statementCount'] = include_options['statementCount']
+                try:
+                    _execute_script_helper(script['statements'], include_options, None)
+                finally:
+                    options['statementCount'] = include_options['statementCount']
 
         # Increment the statement counter
         ix_statement += 1
